@@ -433,4 +433,160 @@ theorem noWs_compactF : ∀ (n : Nat) (t : Str), noWs (compactF n t) = noWs t :=
           rw [noWs_cons_nws hw, noWs_cons_nws hw, ih]
 
 
+
+/-! ## the tokens of a laid-out value -/
+
+mutual
+def toksV : J → List Tok
+  | .num n => [.num (natDigits n)]
+  | .str s => [.str (escStr s)]
+  | .arr [] => [.lb, .rb]
+  | .arr (x :: xs) => .lb :: (toksItems (x :: xs) ++ [.rb])
+  | .obj [] => [.lc, .rc]
+  | .obj (kv :: kvs) => .lc :: (toksMembers (kv :: kvs) ++ [.rc])
+def toksItems : List J → List Tok
+  | [] => []
+  | [x] => toksV x
+  | x :: y :: xs => toksV x ++ .comma :: toksItems (y :: xs)
+def toksMembers : List (Str × J) → List Tok
+  | [] => []
+  | [(k, v)] => .str (escStr k) :: .colon :: toksV v
+  | (k, v) :: kv :: kvs => .str (escStr k) :: .colon :: (toksV v ++ .comma :: toksMembers (kv :: kvs))
+end
+
+theorem natDigits_ne_nil (n : Nat) : natDigits n ≠ [] := by
+  simp [natDigits, Nat.toDigits_ne_nil]
+
+theorem natDigits_digits (n : Nat) : ∀ d ∈ natDigits n, isDigit d = true := by
+  intro d hd
+  simp only [natDigits, List.mem_map] at hd
+  obtain ⟨c, hc, rfl⟩ := hd
+  have := Nat.isDigit_of_mem_toDigits (by decide) (by decide) hc
+  simp only [Char.isDigit, Bool.and_eq_true, decide_eq_true_eq, ge_iff_le] at this
+  obtain ⟨a, b⟩ := this
+  have a' := UInt32.le_iff_toNat_le.1 a
+  have b' := UInt32.le_iff_toNat_le.1 b
+  simp only [isDigit, Bool.and_eq_true, decide_eq_true_eq]
+  exact ⟨a', b'⟩
+
+theorem lex_out_nlind (ind : Nat) (x : Str) : lex .out (nl ind ++ x) = lex .out x := by
+  unfold nl
+  rw [List.cons_append, lex_out_nl]
+  induction ind with
+  | zero => rfl
+  | succ k ih => rw [List.replicate_succ, List.cons_append, lex_out_ws (by decide), ih]
+
+theorem lex_str_plain {c : Nat} (h1 : c ≠ 34) (h2 : c ≠ 92) (h3 : 32 ≤ c) (acc y : Str) :
+    lex (.str acc) (c :: y) = lex (.str (acc ++ [c])) y := by
+  rw [lex_cons]; simp [step, h1, h2, show ¬ c < 32 by omega]
+
+theorem lex_str_esc {l : Nat} (h : l ∈ escLetters) (acc y : Str) :
+    lex (.str acc) (92 :: l :: y) = lex (.str (acc ++ [92, l])) y := by
+  rw [lex_cons]; simp only [step]; simp [lex_cons, step, h]
+
+theorem hexDigit_plain (n : Nat) : hexDigit n ≠ 34 ∧ hexDigit n ≠ 92 ∧ 32 ≤ hexDigit n := by
+  unfold hexDigit; split <;> omega
+
+theorem lex_str_uEsc (u : Nat) (acc y : Str) : lex (.str acc) (uEsc u ++ y) = lex (.str (acc ++ uEsc u)) y := by
+  have h1 := hexDigit_plain (u / 4096)
+  have h2 := hexDigit_plain (u / 256)
+  have h3 := hexDigit_plain (u / 16)
+  have h4 := hexDigit_plain u
+  simp only [uEsc, List.cons_append, List.nil_append]
+  rw [lex_str_esc (by decide), lex_str_plain (by omega) (by omega) (by omega),
+    lex_str_plain (by omega) (by omega) (by omega), lex_str_plain (by omega) (by omega) (by omega),
+    lex_str_plain (by omega) (by omega) (by omega)]
+  simp
+
+theorem lex_str_escChar (c : Nat) (acc y : Str) : lex (.str acc) (escChar c ++ y) = lex (.str (acc ++ escChar c)) y := by
+  unfold escChar
+  repeat' split
+  all_goals first
+    | exact lex_str_esc (by decide) acc y
+    | (rename_i h; exact lex_str_plain (by omega) (by omega) (by omega) acc y)
+    | exact lex_str_uEsc _ acc y
+    | (rw [List.append_assoc, lex_str_uEsc, lex_str_uEsc, List.append_assoc])
+
+theorem lex_str_escStr (s : Str) : ∀ (acc y : Str),
+    lex (.str acc) (escStr s ++ 34 :: y) = pre [Tok.str (acc ++ escStr s)] (lex .out y) := by
+  induction s with
+  | nil => intro acc y; simp [escStr, lex_cons, step]
+  | cons c s ih =>
+    intro acc y
+    simp only [escStr, List.append_assoc]
+    rw [lex_str_escChar, ih, List.append_assoc]
+
+theorem lex_out_quote (s y : Str) : lex .out (quote s ++ y) = pre [Tok.str (escStr s)] (lex .out y) := by
+  unfold quote
+  rw [List.cons_append, lex_cons]
+  simp only [step, stepOut]
+  simp [isWs, wsList, lex_str_escStr]
+
+
+theorem lex_out_lc (t : Str) : lex .out (123 :: t) = pre [Tok.lc] (lex .out t) := by
+  rw [lex_cons]; rfl
+theorem lex_out_rc (t : Str) : lex .out (125 :: t) = pre [Tok.rc] (lex .out t) := by
+  rw [lex_cons]; rfl
+theorem lex_out_colon (t : Str) : lex .out (58 :: t) = pre [Tok.colon] (lex .out t) := by
+  rw [lex_cons]; rfl
+
+theorem nl_append (ind : Nat) (z : Str) : nl ind ++ z = 10 :: (List.replicate ind 32 ++ z) := rfl
+
+mutual
+/-- the text of a value, followed by something that does not start with a digit, lexes to the tokens of the value. -/
+theorem lex_dumpsV : ∀ (v : J) (ind c : Nat) (y : Str), isDigit c = false →
+    lex .out (dumpsV ind v ++ c :: y) = pre (toksV v) (lex .out (c :: y))
+  | .num n, ind, c, y, hc => by
+    simp only [dumpsV, toksV]
+    exact lex_out_digits _ (natDigits_ne_nil n) (natDigits_digits n) c hc y
+  | .str s, ind, c, y, hc => by
+    simp only [dumpsV, toksV]
+    exact lex_out_quote s _
+  | .arr [], ind, c, y, hc => by
+    simp [dumpsV, toksV, lex_out_lb, lex_out_rb]
+  | .arr (x :: xs), ind, c, y, hc => by
+    simp only [dumpsV, toksV, List.cons_append, List.append_assoc, List.nil_append]
+    rw [lex_out_lb, nl_append, lex_dumpsItems (x :: xs) (ind + 2) 10 _ (by decide), ← nl_append, lex_out_nlind, lex_out_rb]
+    simp
+  | .obj [], ind, c, y, hc => by
+    simp [dumpsV, toksV, lex_out_lc, lex_out_rc]
+  | .obj (kv :: kvs), ind, c, y, hc => by
+    simp only [dumpsV, toksV, List.cons_append, List.append_assoc, List.nil_append]
+    rw [lex_out_lc, nl_append, lex_dumpsMembers (kv :: kvs) (ind + 2) 10 _ (by decide), ← nl_append, lex_out_nlind, lex_out_rc]
+    simp
+theorem lex_dumpsItems : ∀ (l : List J) (ind c : Nat) (y : Str), isDigit c = false →
+    lex .out (dumpsItems ind l ++ c :: y) = pre (toksItems l) (lex .out (c :: y))
+  | [], ind, c, y, hc => by simp [dumpsItems, toksItems]
+  | [x], ind, c, y, hc => by
+    simp only [dumpsItems, toksItems, List.append_assoc]
+    rw [lex_out_nlind, lex_dumpsV x ind c y hc]
+  | x :: x' :: xs, ind, c, y, hc => by
+    simp only [dumpsItems, toksItems, List.append_assoc, List.cons_append]
+    rw [lex_out_nlind, lex_dumpsV x ind 44 _ (by decide), lex_out_comma, lex_dumpsItems (x' :: xs) ind c y hc]
+    simp
+theorem lex_dumpsMembers : ∀ (l : List (Str × J)) (ind c : Nat) (y : Str), isDigit c = false →
+    lex .out (dumpsMembers ind l ++ c :: y) = pre (toksMembers l) (lex .out (c :: y))
+  | [], ind, c, y, hc => by simp [dumpsMembers, toksMembers]
+  | [(k, v)], ind, c, y, hc => by
+    simp only [dumpsMembers, toksMembers, List.append_assoc, List.cons_append]
+    rw [lex_out_nlind, lex_out_quote, lex_out_colon, lex_out_ws (by decide), lex_dumpsV v ind c y hc]
+    simp
+  | (k, v) :: kv :: kvs, ind, c, y, hc => by
+    simp only [dumpsMembers, toksMembers, List.append_assoc, List.cons_append]
+    rw [lex_out_nlind, lex_out_quote, lex_out_colon, lex_out_ws (by decide), lex_dumpsV v ind 44 _ (by decide),
+      lex_out_comma, lex_dumpsMembers (kv :: kvs) ind c y hc]
+    simp
+end
+
+/-- `json.dumps(v, indent=2) + "\n"` lexes to the tokens of `v`. -/
+theorem lex_dumps2 (v : J) : lex .out (dumps2 v ++ [10]) = some (toksV v) := by
+  rw [dumps2, lex_dumpsV v 0 10 [] (by decide), lex_out_nl]
+  simp [lex]
+
+/-- The text returned by `get_json` lexes to the tokens of the data: every string literal is the escaped string
+it stands for, character for character; every span list is its two numbers. -/
+theorem lex_getJsonText (v : J) : lex .out (getJsonText v) = some (toksV v) :=
+  lex_compact _ _ _ (lex_dumps2 v)
+
+
 end Paroxy.JsonText
